@@ -1,5 +1,6 @@
 SPECIFICATION Spec
 CONSTANTS
+  Pre = 0
   NSamples = 2
   FragSNs = {1}
   NF = 2
